@@ -74,23 +74,24 @@ ARMED = {
 # rules added in the extension round (five rounds of seeded changes, DESIGN 11.2 / 11.4c-e); appended to the texts above
 EXT = {
  'C01': ('value chain of run() and collocation object built from ALL sweeper parameters (shared rules)', ''),
- 'C02': ('deleted-override detection for every implementation that has a reference signature, alias-exact generator cache, generators dropped on re-initialisation, override obligations of the embedded tableau, nothing frozen at its first value (memo analysis)', 'memo-pattern analysis (def-use roots of cached value vs key)'),
- 'C03': ('sweep counter start, residual after every sweep, node-time pairing, MRO-resolved mass-matrix residual, no arithmetic on a whole IMEX f[m] and tau in every self-assembled residual of any sweeper of the repository incl. projects', 'second program model including pySDC/projects; MRO resolution'),
+ 'C02': ('deleted-override detection for every implementation that has a reference signature, alias-exact generator cache, generators dropped on re-initialisation, override obligations of the embedded tableau, nothing frozen at its first value (memo analysis); dimensional analysis of every accumulation and solver factor in all sweepers of library and projects (dt -> T, values -> U, right-hand sides -> U/T; position / velocity table for the second-order sweepers; 120 statements); matrix form of the IMEX sweep (symbolic); one level per sweep loop; case split on integer conditionals in the signature rules', 'memo-pattern analysis (def-use roots of cached value vs key); dimension inference with sympy monomials; symbolic comparison'),
+ 'C03': ('sweep counter start, residual after every sweep, node-time pairing, MRO-resolved mass-matrix residual, no arithmetic on a whole IMEX f[m] and tau in every self-assembled residual of any sweeper of the repository incl. projects; one level per sweep loop of the controllers', 'second program model including pySDC/projects; MRO resolution'),
  'C04': ('override obligations of ButcherTableauEmbedded', ''),
  'C05': ('QDelta generator gets the left end of the interval, derived matrices of the second-order sweepers, compare-key caches cover every parameter', 'memo-pattern analysis'),
- 'C06': ('MultiStep history reset (two-sided, sign-case analysis), ControllerError guards, Tend-limiting skeleton, MPI gather order, Hot Rod restores the whole list', 'sign-case evaluation of extracted guards'),
- 'C07': ('payload finality of forwarded status flags, who may write its own parameters, first/last from the position in the block', ''),
- 'C08': ('payload finality, MRO winners of the node-parallel sweepers, overridden life-cycle callbacks call super, no stale per-rank copy of a refreshed matrix, no in-place write into the send buffer', 'MRO resolution over the SweeperMPI lineage'),
+ 'C06': ('MultiStep history reset (two-sided, sign-case analysis), ControllerError guards, Tend-limiting skeleton, MPI gather order, Hot Rod restores the whole list; slot list and time table of the first block (structural), slots compressed from the final activity mask', 'sign-case evaluation of extracted guards'),
+ 'C07': ('payload finality of forwarded status flags, who may write its own parameters, first/last from the position in the block; stage methods are entered through the dispatcher only (who-may-call over the stage tables)', ''),
+ 'C08': ('payload finality, MRO winners of the node-parallel sweepers, overridden life-cycle callbacks call super, no stale per-rank copy of a refreshed matrix, no in-place write into the send buffer; serial and MPI run() decide where to restart from the same flag', 'MRO resolution over the SweeperMPI lineage'),
  'C09': ('dependency set-ups reach the base-class merge, validations read the declaring section (contradiction rule; found F28), user part last in every setup(), spread_from_first_restarted wiring, error-estimate restart as the else-arm of the complete non-convergence test', 'contradiction rule over description look-ups'),
- 'C10': ('tau term of every sweeper that can sit on a coarse level, collocation transfer matrices, node-parallel transfer normal forms, mass-matrix defect signature (shared rules); inherited tau enters through Rcoll only; the initial guess reaches the solver (Krylov x0 carries u0, Newton iterate carries u0: 48 solver sites)', 'taint-style def-use closure from the u0 parameter'),
+ 'C10': ('tau term of every sweeper that can sit on a coarse level, collocation transfer matrices, node-parallel transfer normal forms, mass-matrix defect signature (shared rules); inherited tau enters through Rcoll only; the initial guess reaches the solver (Krylov x0 carries u0, Newton iterate carries u0: 48 solver sites); level-hierarchy loops of both controllers visit every level pair (finite evaluation of the loop heads)', 'taint-style def-use closure from the u0 parameter; finite evaluation of whitelisted loop heads'),
  'C11': ('mass-matrix restrict clause-wise, sibling call sites pass the same options, FFT prolongation copies every resolved mode', ''),
  'C12': ('exact / complete cache keys (no near hits), solver and eval_f feed model helpers the same kind of time, operand-preparation agreement of sibling splittings, cached shared operators never changed in place, no overwrite_* / out= on an argument, Newton Jacobian = symbolic derivative of the Newton residual (12 loops), eval_f and solver prepare boundary entries identically (found F29), Newton residual = u - factor*F(u) - rhs and direct solve / closed form = inverse of I - factor*F for the F that eval_f of the same class assigns (34 solver sites, symbolic)', 'memo-pattern analysis; forward def-use pass with strong updates; symbolic differentiation (sympy) of extracted expressions'),
- 'C14': ('exact accumulator, LogWork baseline, hook de-duplication by exact type, post_run under `last`, restart-generation override order, marker key constants', ''),
- 'C15': ('residual always recomputed (no stage name), value chain of run() across blocks', ''),
+ 'C13': ('multi-component meshes hand out writable views (no copying call in the accessor); problem classes of library and projects store components through their views, never rebind them (found F32, repaired; F32b known)', 'inventory over the class hierarchy with a second program model that includes pySDC/projects'),
+ 'C14': ('exact accumulator, LogWork baseline, hook de-duplication by exact type, post_run under `last`, restart-generation override order, marker key constants, ranks merged before superseded records are removed (filter_stats)', ''),
+ 'C15': ('residual always recomputed (no stage name), value chain of run() across blocks, slots compressed from the final activity mask, forward coupling into u[0]', ''),
  'C16': ('block tiling (finite fallback), readers rebuilt per call, properties derived from gRank store nothing', 'finite case analysis on extracted index expressions'),
  'C17': ('ultraspherical conversion chain, cached results never changed in place, kwargs reach the row builders unchanged, caches of plans keyed completely, no magnitude threshold in eliminate_zeros, single source of the scaled wavenumbers, symbolic S(p) D(p) = 1 for the Fourier operators', 'memo-pattern analysis'),
  'C18': ('Kronecker dispatch by abstract interpretation, centred layout (finite fallback), read-only defaults table, cache keys complete and hits guarded, offsets travel with the weights, every popped option used', 'abstract interpretation over tensor-factor tuples; memo-pattern analysis'),
- 'C19': ('per-level dicts, restart-counter coverage (finite case analysis), inventories of sweeper / convergence-controller / hook instance state (tables B6-B8; found F23, F26, F27), problem attributes never read back, life-cycle overrides call super', 'inventories with reason tables; finite case analysis'),
+ 'C19': ('per-level dicts, restart-counter coverage (finite case analysis), inventories of sweeper / convergence-controller / hook instance state (tables B6-B8; found F23, F26, F27), problem attributes never read back, life-cycle overrides call super; a reset level gets the constructor's expressions', 'inventories with reason tables; finite case analysis'),
  'C20': ('exact rejection guards, strict registry look-ups, per-class allow-lists, reference table of read-only declarations, dependency set-ups, look-ups in the declaring section, who may write its own parameters, registries only grow', 'reference tables; contradiction rule'),
 }
 
